@@ -58,6 +58,21 @@ RULE_DEPS = {
     "C12": [_normaliser_rules, _insertion_rules, _load_entry_rules],
     "C13": [_normaliser_rules, _insertion_rules],
 }
+# every operation property quantifies over sequences that callers build with add_absolute_message: the sorted insertion decides
+# the order of simultaneous events in them (a note-off and the re-strike of its pitch on one tick), hence what the operation sees
+for _p in ("C05", "C06", "C07", "C08", "C09", "C10", "C14", "C17", "C18"):
+    RULE_DEPS.setdefault(_p, []).append(_insertion_rules)
+
+
+def _equality_rules(ctx: Ctx) -> None:
+    """`a copy equals its original` is stated in terms of the library's own equality: the rules of `equals` (C17) decide what that means."""
+    from . import c17
+    c17._main_check(ctx)
+    c17.wrapper_rules(ctx)
+
+
+for _p in ("C10", "C16"):
+    RULE_DEPS.setdefault(_p, []).append(_equality_rules)
 
 
 # operations whose whole effect happens in one pass over the messages: the pass must be reached on every call
@@ -105,8 +120,10 @@ def reach_rule(ctx: Ctx, functions) -> None:
 
 
 def view_deps(ctx: Ctx) -> None:
-    for f in RULE_DEPS.get(ctx.prop, []):
-        f(ctx)
+    if not ctx.extra.get("_rule_deps_done"):
+        ctx.extra["_rule_deps_done"] = True
+        for f in RULE_DEPS.get(ctx.prop, []):
+            f(ctx)
     from ..engines.typestate import TypestateEngine, check_wrappers
     names = VIEW_DEPS.get(ctx.prop)
     if not names:
@@ -357,6 +374,11 @@ def dependency_closure(ctx: Ctx) -> None:
     from ..engines.structure import process_state_rule, undefined_name_rule
     process_state_rule(sub, "MEMO")
     undefined_name_rule(sub, reach | set(roots))
+    from ..engines.structure import param_rebind_rule, identity_rule
+    param_rebind_rule(sub, reach | set(roots))
+    identity_rule(sub, reach | set(roots))
+    from ..engines.structure import default_channel_rule
+    default_channel_rule(sub, reach | set(roots))
     for o in sub.obligations:
         ctx.obligations.append(o)
     for f in sub.findings:
@@ -365,7 +387,7 @@ def dependency_closure(ctx: Ctx) -> None:
             ctx.findings.append(f)
     if not full:
         ctx.extra["dependency_closure"] = {"roots": roots, "reached_functions": len(reach), "rule_groups_included": [], "view_wrappers": [],
-                                           "generic_hazard_rules": ["ITERMUT", "MUTDEFAULT", "IMMUT"]}
+                                           "generic_hazard_rules": HAZARD_RULES}
         return
     eng = TypestateEngine(ctx.p, "Sequence")
     wrappers = sorted(q.split(".", 1)[1] for q in reach if q.startswith("Sequence.") and q.split(".", 1)[1] in eng.ci.methods
@@ -381,7 +403,11 @@ def dependency_closure(ctx: Ctx) -> None:
         if f.key not in keys:
             keys.add(f.key)
             ctx.findings.append(f)
-    ctx.extra["dependency_closure"] = {"roots": roots, "reached_functions": len(reach), "rule_groups_included": ran, "view_wrappers": wrappers}
+    ctx.extra["dependency_closure"] = {"roots": roots, "reached_functions": len(reach), "rule_groups_included": ran, "view_wrappers": wrappers,
+                                       "generic_hazard_rules": HAZARD_RULES}
+
+
+HAZARD_RULES = ["ITERMUT", "MUTDEFAULT", "IMMUT", "LAZY", "REACH", "TRUTHY", "EXCEPT", "SETORDER", "CLASSATTR", "MEMO", "UNDEF", "REBIND", "IDENT", "DEFCHAN"]
 
 
 def run_property(ctx: Ctx) -> None:
@@ -389,4 +415,8 @@ def run_property(ctx: Ctx) -> None:
     import importlib
     mod = importlib.import_module(f"sa.props.{ctx.prop.lower()}")
     mod.check(ctx)
+    if not ctx.extra.get("_rule_deps_done"):          # properties whose module does not call view_deps itself
+        ctx.extra["_rule_deps_done"] = True
+        for f in RULE_DEPS.get(ctx.prop, []):
+            f(ctx)
     dependency_closure(ctx)
